@@ -164,6 +164,7 @@ pub fn run_op(obs: &mut Obs, op: Op, input: &[u8], family: &str) {
     let base = mon::alloc_window_begin();
     let mut rdr = CountingReader::new(Cursor::new(input), budget);
     let mut radials: Vec<nexrad_decode::messages::digital_radar_data::Message> = Vec::new();
+    mon::case_begin(&op.name(), family, input);
     let res = mon::catch(|| -> Result<(), String> {
         match op {
             Op::Messages => {
@@ -202,6 +203,7 @@ pub fn run_op(obs: &mut Obs, op: Op, input: &[u8], family: &str) {
         }
         Ok(())
     });
+    mon::case_end();
     let (peak, largest) = mon::alloc_window_end(base);
     let replay = || json!({"op": op.name(), "type_code": if let Op::Contents(c) = op { json!(c) } else { json!(null) },
         "family": family, "input_len": input.len(), "input_hex": hex(&input[..input.len().min(16384)])});
@@ -611,6 +613,13 @@ verdict monitors: panic hook, reader work <= 64*(plain-walk work + n) + 1 MiB (t
         "inputs whose plain walk exceeds 50 MiB of reads are not run (counted as ops_skipped_by_work_cap)".into(),
     ];
     ctx.floor_evaluations = 5_000;
+    {
+        // a decoder that spins without reading evades the reader budget: CPU-time budget per call
+        let (tier, sd) = (ctx.tier, ctx.seed);
+        mon::start_cpu_watchdog(60, move |op, family, input, cpu| {
+            crate::ev::report_stuck_and_exit("C04", tier, sd, op, family, input, cpu, 60)
+        });
+    }
     let total: u64 = ctx.tier.pick(16_000, 3_000_000);
     let seed = ctx.seed;
 
